@@ -15,6 +15,9 @@ type FaultDB struct {
 	// after-commit, where nothing can be failed any more).
 	Hook  func(point string) error
 	Calls map[string]int
+	// Statements: also report (and allow failing) selected statements inside a Write
+	// as boundaries "db.stmt.<Method>".
+	Statements bool
 }
 
 type faultClient struct {
@@ -56,6 +59,9 @@ func (c *faultClient) Write(ctx context.Context, op func(context.Context, db.Tra
 		return err
 	}
 	err := c.inner.Write(ctx, func(ctx context.Context, tx db.Transaction) error {
+		if c.b.Statements {
+			tx = &faultTx{Transaction: tx, b: c.b}
+		}
 		if err := op(ctx, tx); err != nil {
 			return err
 		}
